@@ -203,14 +203,111 @@ def coq_sources(subdirs):
     return out
 
 
+def _coqdep(files):
+    """{vo: (v, [dep vo, ...])} for the given .v files (paths relative to COQ)."""
+    rc, out = sh(['coqdep', '-R', '.', 'QV'] + files, cwd=COQ, timeout=300)
+    deps = {}
+    for line in out.split('\n'):
+        if ':' not in line:
+            continue
+        lhs, rhs = line.split(':', 1)
+        tgts = lhs.split()
+        if not tgts or not tgts[0].endswith('.vo'):
+            continue
+        vo = os.path.normpath(tgts[0])
+        rs = [os.path.normpath(x) for x in rhs.split()]
+        v = [x for x in rs if x.endswith('.v')]
+        deps[vo] = (v[0] if v else vo[:-1], [x for x in rs if x.endswith('.vo')])
+    return deps
+
+
 def coq_make(targets, jobs=8, timeout=1500):
-    """(Re)build the given .vo targets (paths relative to /verif/coq). Returns (ok, log)."""
-    with build_lock():
-        rc, out = sh(['/bin/sh', os.path.join(VERIF, 'tools', 'mkproject.sh')])
-        if rc != 0:
-            return False, out
-        rc, out = sh(['timeout', str(timeout), 'make', '-C', COQ, '-j%d' % jobs] + list(targets), timeout=timeout + 30)
-        return rc == 0, out
+    """(Re)build the given .vo targets (paths relative to /verif/coq) and what they depend on.
+
+    Own dependency-driven builder (coqdep + coqc, full .vo compilation) with ONE LOCK PER PROPERTY DIRECTORY, so that
+    checks of different properties never wait for each other (the shared coq_makefile build is used by setup.sh only).
+    Returns (ok, log)."""
+    import concurrent.futures
+    targets = [os.path.normpath(t) for t in targets]
+    dirs = sorted({t.split('/')[0] for t in targets} | {'common'})
+    os.makedirs(BUILD, exist_ok=True)
+    lockpath = os.path.join(BUILD, '.coq.%s.lock' % '_'.join(d for d in dirs if d != 'common'))
+    t_end = time.time() + timeout
+    with open(lockpath, 'w') as lk:
+        fcntl.flock(lk, fcntl.LOCK_EX)
+        try:
+            files = []
+            for d in dirs:
+                for dp, _, fns in os.walk(os.path.join(COQ, d)):
+                    files += [os.path.relpath(os.path.join(dp, f), COQ) for f in sorted(fns) if f.endswith('.v')]
+            deps = _coqdep(files)
+            for _ in range(3):          # dependencies into other directories (not expected): pull them in
+                extra = sorted({d[:-1] for _, ds in deps.values() for d in ds
+                                if d not in deps and os.path.exists(os.path.join(COQ, d[:-1]))})
+                if not extra:
+                    break
+                deps.update(_coqdep(extra))
+            need, stack = set(), list(targets)
+            while stack:
+                t = stack.pop()
+                if t in need:
+                    continue
+                if t not in deps:
+                    return False, 'File "%s", line 1, characters 0-0:\nError: no source for target %s' % (t[:-1], t)
+                need.add(t)
+                stack += [d for d in deps[t][1] if d in deps or os.path.exists(os.path.join(COQ, d[:-1]))]
+            log, done, rebuilt, failed = [], set(), set(), []
+
+            def mtime(path):
+                try:
+                    return os.path.getmtime(os.path.join(COQ, path))
+                except OSError:
+                    return None
+
+            def stale(vo):
+                m = mtime(vo)
+                if m is None or m < (mtime(deps[vo][0]) or 0):
+                    return True
+                return any(d in rebuilt or (mtime(d) or 0) > m for d in deps[vo][1] if d in need)
+
+            def build(vo):
+                v = deps[vo][0]
+                left = max(30, int(t_end - time.time()))
+                try:
+                    r = subprocess.run(['coqc', '-R', '.', 'QV', '-w',
+                                        '-notation-overridden,-deprecated-hint-without-locality,'
+                                        '-deprecated-instance-without-locality,-ambiguous-paths', v], cwd=COQ,
+                                       stdout=subprocess.PIPE, stderr=subprocess.STDOUT, text=True, timeout=left)
+                    return vo, r.returncode, 'COQC %s\n%s' % (v, r.stdout)
+                except subprocess.TimeoutExpired:
+                    return vo, 124, 'COQC %s\nFile "%s", line 1, characters 0-0:\nError: coqc timed out' % (v, v)
+
+            with concurrent.futures.ThreadPoolExecutor(max_workers=jobs) as ex:
+                running = {}
+                while (len(done) < len(need) or running) and not failed:
+                    for vo in sorted(need - done - set(running.values())):
+                        if all(d in done or d not in need for d in deps[vo][1]):
+                            if stale(vo):
+                                running[ex.submit(build, vo)] = vo
+                            else:
+                                done.add(vo)
+                    if not running:
+                        if len(done) < len(need):
+                            continue
+                        break
+                    fin, _ = concurrent.futures.wait(list(running), return_when=concurrent.futures.FIRST_COMPLETED)
+                    for f in fin:
+                        vo, rc, out = f.result()
+                        del running[f]
+                        log.append(out)
+                        if rc != 0:
+                            failed.append(vo)
+                        else:
+                            rebuilt.add(vo)
+                            done.add(vo)
+            return (not failed), '\n'.join(log)
+        finally:
+            fcntl.flock(lk, fcntl.LOCK_UN)
 
 
 def first_coq_error(log):
